@@ -101,3 +101,18 @@ package xpkg
 //@ requires t != nil
 //@ site (io.Reader).Read($rd, $buf)
 //@   assert [C15:reads-go-through-the-tee] $rd == t.t && $buf == b
+
+// C15 (the built image declares what the package directory declares): the package stream holds
+// the package's meta object and then every one of its objects, each encoded exactly once and in
+// order - none skipped, none doubled - into the buffer that is returned.
+//@ func xpkg.encode
+//@ props C15
+//@ requires pkg != nil
+//@ ghost encoded int = 0
+//@ site (*json.Serializer).Encode(_, $o, $w)
+//@   assert [C15:objects-are-encoded-into-the-package-stream] $w == pkgBuf
+//@   assert [C15:meta-first-then-the-objects-in-order] (encoded == 0 && $o == pkg.GetMeta()[0]) || (encoded > 0 && encoded <= len(pkg.GetObjects()) && $o == pkg.GetObjects()[encoded - 1])
+//@   update encoded = encoded + 1
+//@ loop range pkg.GetObjects()
+//@   invariant [C15:every-object-so-far-is-encoded-once] encoded == done + 1
+//@ ensures [C15:built-package-holds-the-meta-and-every-object] err == nil ==> encoded == len(pkg.GetObjects()) + 1 && result == pkgBuf
